@@ -14,6 +14,8 @@ CONSTANTS
  PublishOnlyLatest = FALSE
  HoldVfsAcrossApply = FALSE
  SnapshotInTask = FALSE
+ CancelledAnsweredOk = FALSE
+ AnsFree = FALSE
  PollWhileWaiting = FALSE
  PreFixF9 = TRUE
  ThirdPartyFatal = FALSE
